@@ -151,9 +151,28 @@ def judge_c15(plan, result):
     last_on_ev = {}
     evs_of_obj = {}
     applies_of_obj = {}
+    arch_listing = {}
+    snap_of_ev = {}
     for ev in result["log"]:
         op, res = ev["op"], ev["res"]
+        if op["op"] == "str" and op.get("obj") in archs and res.get("r") == "ok":
+            # I2 for the shared layer definition: evaluating layer rules never rewrites it
+            ref_str = arch_listing.setdefault(op["obj"], res["str"])
+            _bump(pr, "shared_layer_definition_observed")
+            if ref_str != res["str"]:
+                viol.append({"inv": "I2", "sig": "C15/I2/shared-layer-definition-changed", "step": ev["i"],
+                             "detail": {"obj": op["obj"], "first": ref_str, "now": res["str"]}})
+            continue
+        if op["op"] == "modules" and res.get("r") == "ok":
+            want = (result["snaps"].get(snap_of_ev.get(op["ev"])) or {}).get("modules")
+            _bump(pr, "modules_property_observed")
+            if want is not None and sorted(res["modules"]) != want:
+                viol.append({"inv": "I2", "sig": "C15/I2/modules-property-changed", "step": ev["i"],
+                             "detail": {"ev": op["ev"], "now": res["modules"], "at_creation": want}})
+            continue
         if op["op"] == "scan":
+            if res.get("r") == "ok":
+                snap_of_ev[op["ev"]] = res["snap"]
             st["scans"] += 1
             ref = first_scan.setdefault(op["cfg"], res)
             same = (ref.get("r") == res.get("r")) and (ref.get("snap") == res.get("snap"))
